@@ -8,11 +8,15 @@
 #include <unistd.h>
 #include "ts.h"
 void trap(Trap t) { fprintf(stderr, "trap %d\n", (int)t); abort(); }
+/* what the embedder supplies for the modules' table and global imports */
+static wasmTable hosttab; static U32 hostbias = 0;
+static void* resolve(const char* module, const char* name) { (void)module; if (!strcmp(name, "tab")) return &hosttab; if (!strcmp(name, "bias")) return &hostbias; return NULL; }
 static tsInstance root;
 wasmMemory* wasiMemory(void* i) { return ts_memory((tsInstance*)i); }
 static pthread_mutex_t lg = PTHREAD_MUTEX_INITIALIZER;
 static struct { U32 tid, arg; int shared, parent; } starts[4096]; static int nstarts;
 static struct { U32 arg, ret; } spawns[4096];
+static int stay; static volatile int gate;
 void env__report(void* inst, U32 tid, U32 arg) {
     pthread_mutex_lock(&lg);
     starts[nstarts].tid = tid; starts[nstarts].arg = arg;
@@ -20,6 +24,9 @@ void env__report(void* inst, U32 tid, U32 arg) {
     starts[nstarts].parent = inst == (void*)&root;
     nstarts++;
     pthread_mutex_unlock(&lg);
+    /* "stay" mode: the started thread does not return before the driver opens the gate, so that all spawned threads are alive
+     * at the same moment (threads parked at a barrier, one thread per connection) */
+    while (stay && !__atomic_load_n(&gate, __ATOMIC_SEQ_CST)) usleep(500);
 }
 static pthread_barrier_t bar;
 /* every spawning thread issues M spawns; before each one all of them meet at a spinning rendezvous, so that the calls overlap */
@@ -35,12 +42,14 @@ static void* spawner(void* a) { long k = (long)a; int m;
 int main(int argc, char** argv) {
     int K = argc > 1 ? atoi(argv[1]) : 4, i, waited = 0, total; pthread_t th[64];
     char* noargs[1] = {NULL};
-    M = argc > 2 ? atoi(argv[2]) : 1; Kthreads = K; total = K * M;
+    M = argc > 2 ? atoi(argv[2]) : 1; Kthreads = K; total = K * M; stay = argc > 3 && !strcmp(argv[3], "stay");
     wasiInit(0, noargs, noargs);
-    tsInstantiate(&root, NULL);
+    wasmTableAllocate(&hosttab, 4, 4); tsInstantiate(&root, resolve);
     pthread_barrier_init(&bar, NULL, (unsigned)K);
     for (i = 0; i < K; i++) pthread_create(&th[i], NULL, spawner, (void*)(long)i);
     for (i = 0; i < K; i++) pthread_join(th[i], NULL);
+    if (stay) { while (waited < 3000) { int n; pthread_mutex_lock(&lg); n = nstarts; pthread_mutex_unlock(&lg); if (n >= total) break; usleep(1000); waited++; }
+                __atomic_store_n(&gate, 1, __ATOMIC_SEQ_CST); waited = 0; }
     while (waited < 3000) { int n; pthread_mutex_lock(&lg); n = nstarts; pthread_mutex_unlock(&lg); if (n >= total && ts_cell(&root) >= (U32)total) break; usleep(1000); waited++; }
     usleep(20000);      /* a duplicate start, if any, gets a chance to show up */
     pthread_mutex_lock(&lg);
